@@ -336,23 +336,45 @@ func ruleServerClientAuth12(c *Ctx, r *Report) {
 		fn := s.Fn
 		vcv := s.Call.(*ssa.Call)
 		n++
+		advOf := func(f *ssa.Function) []*ssa.Return {
+			var out []*ssa.Return
+			if f.Signature.Results().Len() != 3 {
+				return nil
+			}
+			for _, b := range f.Blocks {
+				if ret, ok := b.Instrs[len(b.Instrs)-1].(*ssa.Return); ok && isAdvanceReturn(ret) {
+					out = append(out, ret)
+				}
+			}
+			return out
+		}
+		// the flight parser: the function itself, or - when the verification was moved into a
+		// private helper - its only caller (two levels)
+		advancing := advOf(fn)
+		for lvl := 0; len(advancing) == 0 && lvl < 2; lvl++ {
+			sites, closed := c.staticCallers(fn)
+			if !closed || len(sites) != 1 {
+				break
+			}
+			fn = sites[0].Fn
+			advancing = advOf(fn)
+		}
 		key := short(fn)
 		r.Sites += len(fn.Blocks)
-		var advancing []*ssa.Return
-		for _, b := range fn.Blocks {
-			if ret, ok := b.Instrs[len(b.Instrs)-1].(*ssa.Return); ok && isAdvanceReturn(ret) {
-				advancing = append(advancing, ret)
-			}
-		}
 		if len(advancing) == 0 {
 			r.Unk(rule, key, c.ipos(vcv), "no advancing exit")
 			continue
+		}
+		follow := followSamePkg(fn)
+		inUnit := map[*ssa.Function]bool{}
+		for _, u := range c.unitFuncs(fn) {
+			inUnit[u] = true
 		}
 		hasVerify := atomAssume{mTypeAssertOK("pkg/protocol/handshake.MessageCertificateVerify"), vBool(true)}
 		noVerify := atomAssume{mTypeAssertOK("pkg/protocol/handshake.MessageCertificateVerify"), vBool(false)}
 		// (a) a CertificateVerify that is present must verify
 		for _, ret := range advancing {
-			why := passesUnder(fn, []atomAssume{hasVerify}, vcv, errResult(vcv), ret)
+			why := passesUnderF(fn, []atomAssume{hasVerify}, vcv, errResult(vcv), ret, follow)
 			r.Check(why == "", rule, key+":CertificateVerify", c.ipos(ret), "with a CertificateVerify present every advancing exit passes a successful VerifyCertificateVerify", "handshake can advance with a CertificateVerify that was not successfully verified: "+why)
 		}
 		// transcript and signer of CertificateVerify
@@ -369,21 +391,24 @@ func ruleServerClientAuth12(c *Ctx, r *Report) {
 		r.Check(allLeaves(c.Origins(vcv.Call.Args[4], 0), func(v ssa.Value) bool { return isFieldLoad(v, tCom, "PeerCertificates") }), rule, key+":CertificateVerify-signer", c.ipos(vcv), "signer = state.PeerCertificates", "CertificateVerify is not checked against the presented client certificate")
 		// (b) certificate without proof of possession never advances
 		{
-			w := (&Walk{Fn: fn, Assume: assumeAll(noVerify, atomAssume{mLoad(tCom, "PeerCertificates"), vNil(false)})}).FromEntry()
+			w := (&Walk{Fn: fn, Follow: follow, Assume: assumeAll(noVerify, atomAssume{mLoad(tCom, "PeerCertificates"), vNil(false)})}).FromEntry()
 			adv := 0
 			for _, ro := range w.Returns {
-				if isAdvanceReturn(ro.Ret) {
+				if ro.Ret.Parent() == fn && isAdvanceReturn(ro.Ret) {
 					adv++
 				}
 			}
 			r.Check(adv == 0 && !w.overflow, rule, key+":cert-without-verify", c.pos(fn.Pos()), "a client certificate without CertificateVerify cannot advance", "a client certificate that is not followed by a CertificateVerify still lets the handshake advance (no proof of possession)")
 		}
 		// (c) PeerCertificatesVerified is true only after a successful VerifyClientCert
-		vcc := findCalls(fn, nameIs(pkgHC+".VerifyClientCert"))
+		var vcc []*ssa.Call
+		for _, u := range c.unitFuncs(fn) {
+			vcc = append(vcc, findCalls(u, nameIs(pkgHC+".VerifyClientCert"))...)
+		}
 		stores := 0
 		for _, st := range c.StoresTo(tSt12, "PeerCertificatesVerified") {
 			stores++
-			if st.Fn != fn {
+			if !inUnit[st.Fn] {
 				if k, isC := constBool(st.Val); isC && !k {
 					r.OKTrivial(rule, short(st.Fn)+":verified-flag-reset", c.ipos(st.Instr), "reset to false")
 					continue
@@ -399,7 +424,7 @@ func ruleServerClientAuth12(c *Ctx, r *Report) {
 			chk := vcc[0]
 			store := st.Instr.(*ssa.Store)
 			// without the check
-			w1 := &Walk{Fn: fn}
+			w1 := &Walk{Fn: fn, Follow: follow}
 			w1.Visit = func(in ssa.Instruction, env Env) bool {
 				if in == chk {
 					return false
@@ -414,7 +439,7 @@ func ruleServerClientAuth12(c *Ctx, r *Report) {
 			w1.FromEntry()
 			// with the check failing
 			fail := failAssumption(errResult(chk))
-			w2 := &Walk{Fn: fn, Assume: fail}
+			w2 := &Walk{Fn: fn, Follow: follow, Assume: fail}
 			w2.Visit = func(in ssa.Instruction, env Env) bool {
 				if in == store {
 					if v := w2.eval(store.Val, env); !(v.Kind == 1 && !v.B) {
@@ -423,30 +448,33 @@ func ruleServerClientAuth12(c *Ctx, r *Report) {
 				}
 				return true
 			}
-			w2.After(chk)
+			w2.FromEntry()
 			r.Check(bad == "", rule, key+":verified-flag", c.ipos(st.Instr), "PeerCertificatesVerified is true only on paths through a successful VerifyClientCert", bad)
 			// the chain verification is requested exactly for the verifying policies
 			for _, pol := range sortedKeys(ca) {
 				pv := ca[pol]
-				wp := &Walk{Fn: fn, Assume: assumeAll(hasVerify, atomAssume{mLoad(tCfg, "ClientAuth"), vInt(pv)})}
+				wp := &Walk{Fn: fn, Follow: follow, Assume: assumeAll(hasVerify, atomAssume{mLoad(tCfg, "ClientAuth"), vInt(pv)})}
 				wp.FromEntry()
 				want := pv >= ca["VerifyClientCertIfGiven"]
 				// reached on some path at least; for verifying policies the store must not be reachable with barrier
 				if want {
-					why := passesUnder(fn, []atomAssume{hasVerify, {mLoad(tCfg, "ClientAuth"), vInt(pv)}}, chk, errResult(chk), store)
+					why := passesUnderF(fn, []atomAssume{hasVerify, {mLoad(tCfg, "ClientAuth"), vInt(pv)}}, chk, errResult(chk), store, follow)
 					r.Check(why == "", rule, key+":chain-verified:"+pol, c.ipos(chk), "policy "+pol+": the verified flag is stored only after a successful VerifyClientCert", "policy "+pol+": "+why)
 				}
 			}
 		}
 		r.Floor(rule+":verified-flag-stores", stores, 1)
 		// (d) application callback when a certificate was verified by signature
-		cbs := dynCallsOfField(fn, tCfg, "VerifyPeerCertificate")
+		var cbs []*ssa.Call
+		for _, u := range c.unitFuncs(fn) {
+			cbs = append(cbs, dynCallsOfField(u, tCfg, "VerifyPeerCertificate")...)
+		}
 		if len(cbs) != 1 {
 			r.Bad(rule, key+":VerifyPeerCertificate", c.ipos(vcv), fmt.Sprintf("%d cfg.VerifyPeerCertificate invocations (expected 1)", len(cbs)))
 		} else {
 			for _, pol := range sortedKeys(ca) {
 				for _, ret := range advancing {
-					why := passesUnder(fn, []atomAssume{hasVerify, {mLoad(tCfg, "VerifyPeerCertificate"), vNil(false)}, {mLoad(tCfg, "ClientAuth"), vInt(ca[pol])}}, cbs[0], errResult(cbs[0]), ret)
+					why := passesUnderF(fn, []atomAssume{hasVerify, {mLoad(tCfg, "VerifyPeerCertificate"), vNil(false)}, {mLoad(tCfg, "ClientAuth"), vInt(ca[pol])}}, cbs[0], errResult(cbs[0]), ret, follow)
 					if why != "" {
 						r.Bad(rule, key+":VerifyPeerCertificate:"+pol, c.ipos(cbs[0]), "policy "+pol+": a presented client certificate can be accepted without the configured VerifyPeerCertificate callback succeeding: "+why)
 					} else {
@@ -573,20 +601,20 @@ func ruleProtectedFlight13(c *Ctx, r *Report) {
 				ok, why := guardedBy(calls[0], errResult(calls[0]), st.Instr)
 				r.Check(ok, rule, key, c.ipos(st.Instr), "hasFinished is set only after verifyPeerFinished succeeded", "hasFinished set without a successful verifyPeerFinished: "+why)
 				// certificate present => proven
-				w := (&Walk{Fn: fn, Assume: assumeAll(
+				w := (&Walk{Fn: fn, Follow: followSamePkg(fn), Assume: assumeAll(
 					atomAssume{mLenOfLoad(tPF, "peerCertificates"), vInt(1)},
 					atomAssume{mLoad(tPF, "hasCertificateVerify"), vBool(false)},
 				)}).FromEntry()
 				r.Check(!w.Reached[st.Instr], rule, key+":cert-needs-verify", c.ipos(st.Instr), "a presented certificate without verified CertificateVerify never reaches hasFinished", "Finished accepted although a certificate was presented without a verified CertificateVerify")
 				// required client certificate
-				w = (&Walk{Fn: fn, Assume: assumeAll(
+				w = (&Walk{Fn: fn, Follow: followSamePkg(fn), Assume: assumeAll(
 					atomAssume{mLoad("internal/flight.HandshakeCacheItem", "IsClient"), vBool(true)},
 					atomAssume{mCall("internal/handshake.clientCertificateRequired"), vBool(true)},
 					atomAssume{mLenOfLoad(tPF, "peerCertificates"), vInt(0)},
 				)}).FromEntry()
 				r.Check(!w.Reached[st.Instr], rule, key+":client-cert-required", c.ipos(st.Instr), "required client certificate missing: hasFinished unreachable", "client Finished accepted although the policy requires a client certificate and none was presented")
 				// server must authenticate (DTLS 1.3 here has no PSK mode)
-				w = (&Walk{Fn: fn, Assume: assumeAll(
+				w = (&Walk{Fn: fn, Follow: followSamePkg(fn), Assume: assumeAll(
 					atomAssume{mLoad("internal/flight.HandshakeCacheItem", "IsClient"), vBool(false)},
 					atomAssume{mLoad(tPF, "hasCertificateVerify"), vBool(false)},
 					atomAssume{mLenOfLoad(tPF, "peerCertificates"), vInt(0)},
